@@ -14,6 +14,7 @@ package main
 //	$sorted   the slice handed to the final semver.Sort of padVersions
 
 //@ ghost nreal int
+//@ ghost seen int
 
 // minVersion: the empty string is an absolute minimum; otherwise one of the two
 // arguments, and never greater than either (by semver.Compare).
@@ -36,7 +37,7 @@ package main
 //@   loop 3: invariant ucfg != nil && (forall k string :: in(k, programs) ==> programs[k] != nil)
 //@   loop 4: invariant ucfg != nil && p != nil
 //@   loop 5: invariant ucfg != nil && p != nil && 0 <= i && i <= rangeindex+1 && i <= len(versions)
-//@   modifies heap, $nreal
+//@   modifies heap, $nreal, $seen
 
 //@ contract prereleasesForProgram
 //@   modifies nothing
@@ -50,11 +51,18 @@ package main
 //@   loop 3: invariant len(versions) >= $nreal && (fresh(versions) || versions == nil) && all != nil
 //@   loop 4: invariant len(versions) >= $nreal && (fresh(versions) || versions == nil) && all != nil
 //@   loop 5: invariant len(versions) >= $nreal && (fresh(versions) || versions == nil) && all != nil
-//@   loop 6: invariant len(versions) >= $nreal && (fresh(versions) || versions == nil) && all != nil && 0 <= nextPrerelease
+//@   loop 6: invariant len(versions) >= $nreal && (fresh(versions) || versions == nil) && all != nil && 0 <= nextPrerelease && nextPrerelease <= rangeindex+1 && $seen == rangeindex+1
 //@   loop 7: invariant len(versions) >= $nreal && (fresh(versions) || versions == nil) && all != nil && 0 <= i
+// The scan for prereleases that already exist examines every pattern (it is not
+// cut short), and leaves nextPrerelease past every existing one it met, so the
+// padding loop does not append a version that is already in the list.
+//@   at call append#1: ghost $seen = 0
+//@   at call Sprintf#3: ghost $seen = $seen+1
+//@   at loop 6 end: assert all[pre] ==> nextPrerelease == rangeindex+1
+//@   at loop 7 entry: assert $seen == len(prereleasePatterns) && 0 <= nextPrerelease && nextPrerelease <= len(prereleasePatterns)
 //@   at call Sort#2: assert len(arg0) >= $nreal && issub(arg0, versions, 0, len(versions))
 //@   allows panic#1: documented "can't happen": the latest release is a canonical semantic version
-//@   modifies $nreal
+//@   modifies $nreal, $seen
 
 //@ contract parseSemver
 //@   modifies nothing
